@@ -1,8 +1,287 @@
 import RbV.Basic.Codec
-/-! Driver for property C16 (line protocol → verdict). -/
-namespace RbV.Drv.C16
-open RbV.Codec
+import RbV.Ref.NW
+import RbV.Ref.PoaCheck
+import RbV.Ref.PoaAccept
+import RbV.Model.Poa
+/-! Driver for property C16 (partial-order alignment).
 
-def verdict (_toks : List String) (_out : String) : String := "bad-op unimplemented"
+`c16 <gap>:<xp>:<xs>:<yp>:<ys> <alphabet> <table> <reference> <step>/… => g:<labels>:<edges> c:<cons> | [b:<sc>] s:<sc> o:<ops> [g:… c:…] | …`
+(see `harness/src/c16.rs` for the format).
+
+Clauses decided here, all with the proved functions of `RbV/Ref`:
+* score clause — while the graph is the one built from the reference alone (no addition yet, or still the
+  chain `0→1→…` with the reference's labels): a `global` alignment must be accepted by `acceptGlobal`
+  (operations = valid global alignment, recomputed score = reported score = `nwFast` = optimum); a
+  `global_banded` run with bandwidth ≥ both lengths (clip penalties at their default) must report the same score;
+* graph clauses — after every `add_to_graph`, whatever the alignment mode: well-formed, `isAcyclic`,
+  `extendsB` (labels kept, no edge lost or lighter), node growth ≤ |query|, consensus non-empty and `spelledB`;
+* identity clause — only for histories that consist of global re-additions of the reference under a scheme
+  whose unique optimum is the identity alignment (one match score M > 0, every mismatch < M, gap < 0):
+  labels and consensus stay equal to the reference.
+Nothing is asserted about scores or operations of `semiglobal`/`local`/`custom`/narrow bands.
+
+The mirror model `RbV/Model/Poa.lean` is evaluated alongside: `global` DP + traceback on the current graph,
+`add_alignment` on the observed operations (every mode), `consensus` on every dump, and `chainScore`
+(proved equal to the optimum) on the linear graph.  Differences are tags `drift-*`, never violations. -/
+namespace RbV.Drv.C16
+open RbV.Codec RbV.NW RbV.Poa
+
+def minScore : Int := -858993459
+
+structure Step where
+  mode : String
+  query : List Nat
+  bw : Nat
+  add : Bool
+
+structure Dump where
+  labels : List Nat
+  wes : List (Nat × Nat × Int)
+
+def parseStep (s : String) : Option Step :=
+  match s.splitOn ":" with
+  | [m, q, b, a] => do
+    let q ← parseHex q
+    let b ← parseNat b
+    if !(["g", "b", "s", "l", "c"].contains m) then none
+    let add ← if a = "a" then some true else if a = "n" then some false else none
+    pure { mode := m, query := q, bw := b, add := add }
+  | _ => none
+
+def parseEdge (s : String) : Option (Nat × Nat × Int) :=
+  match s.splitOn "." with
+  | [u, v, w] => do
+    let u ← parseNat u
+    let v ← parseNat v
+    let w ← parseInt w
+    pure (u, v, w)
+  | _ => none
+
+def parseDump (s : String) : Option Dump :=
+  match s.splitOn ":" with
+  | [l, e] => do
+    let l ← parseHex l
+    let e ← parseList parseEdge e
+    pure { labels := l, wes := e }
+  | _ => none
+
+def parseOp (s : String) : Option POp :=
+  match s.toList with
+  | [] => none
+  | c :: rest =>
+    let r := String.ofList rest
+    let nums : Option (List Nat) := if r = "" then some [] else (r.splitOn ".").mapM parseNat
+    match c, nums with
+    | 'M', some [] => some (.m none)
+    | 'M', some [p, q] => some (.m (some (p, q)))
+    | 'D', some [] => some (.d none)
+    | 'D', some [p, q] => some (.d (some (p, q)))
+    | 'I', some [] => some (.i none)
+    | 'I', some [p] => some (.i (some p))
+    | 'X', some [r] => some (.x r)
+    | 'Y', some [a, b] => some (.y a b)
+    | _, _ => none
+
+structure Grp where
+  b : Option String := none
+  s : Option String := none
+  o : Option String := none
+  g : Option String := none
+  c : Option String := none
+
+def parseGrp (s : String) : Option Grp :=
+  ((s.splitOn " ").filter (· ≠ "")).foldlM (init := ({} : Grp)) fun g tok =>
+    match field tok with
+    | some ("b", v) => some { g with b := some v }
+    | some ("s", v) => some { g with s := some v }
+    | some ("o", v) => some { g with o := some v }
+    | some ("g", v) => some { g with g := some v }
+    | some ("c", v) => some { g with c := some v }
+    | _ => none
+
+def mkSc (alpha : List Nat) (table : List Int) (gap : Int) : Sc :=
+  { w := fun a b => table.getD (alpha.idxOf a * alpha.length + alpha.idxOf b) 0, gap := gap }
+
+/-- one match score M > 0 on the diagonal, everything else below M, gap < 0: the identity alignment of a
+sequence with itself is then the unique optimum -/
+def uniqueOpt (k : Nat) (table : List Int) (gap : Int) : Bool :=
+  let m := table.getD 0 0
+  decide (m > 0) && decide (gap < 0) &&
+  (List.range (k * k)).all fun i =>
+    let t := table.getD i 0
+    if i / k = i % k then t == m else decide (t < m)
+
+def isChain (d : Dump) : Bool :=
+  plain d.wes == (List.range (d.labels.length - 1)).map fun i => (i, i + 1)
+
+def hasGapOrClip (ops : List POp) : Bool :=
+  ops.any fun o => match o with | .m _ => false | _ => true
+
+def hasClip (ops : List POp) : Bool :=
+  ops.any fun o => match o with | .x _ => true | .y _ _ => true | _ => false
+
+structure St where
+  cur : Dump
+  noAdds : Bool := true
+  onlyIdentity : Bool := true     -- every addition so far: global, query = reference
+  stopped : Bool := false
+  fails : List String := []
+  soft : List String := []        -- the recorded edgeless-consensus defect, reported last
+  tags : List String := []
+  nt : Bool := false
+  bad : Option String := none
+
+def St.fail (st : St) (m : String) : St := { st with fails := st.fails ++ [m] }
+def St.tag (st : St) (t : String) : St := if st.tags.contains t then st else { st with tags := st.tags ++ [t] }
+
+/-- consensus clause on graph `d` -/
+def checkCons (st : St) (d : Dump) (c : String) (at_ : String) : St :=
+  let mc := match Model.consensus d.labels d.wes with | none => "PANIC" | some w => toHex w
+  let st := if mc ≠ c then st.tag "drift-consensus" else st
+  if c = "PANIC" then
+    if d.wes.isEmpty then { st with soft := st.soft ++ ["consensus-panic-on-graph-without-edges step=" ++ at_] }
+    else st.fail ("consensus-panic step=" ++ at_)
+  else match parseHex c with
+    | none => { st with bad := some "consensus" }
+    | some w =>
+      if w.isEmpty then st.fail ("consensus-empty step=" ++ at_)
+      else if !spelledB d.labels (plain d.wes) w then st.fail ("consensus-not-a-path step=" ++ at_)
+      else st
+
+def fullBand (st : Step) (m : Nat) : Bool := st.bw ≥ m && st.bw ≥ st.query.length
+
+def stepCheck (sc : Sc) (clipsDefault uniq : Bool) (ref : List Nat) (st : St) (idx : Nat) (sp : Step) (g : Grp) : St :=
+  if st.stopped || st.bad.isSome then st else
+  let at_ := toString idx
+  let st := st.tag ("mode-" ++ sp.mode)
+  let linear := st.noAdds || (isChain st.cur && st.cur.labels == ref)
+  let m := st.cur.labels.length
+  match g.s with
+  | none => { st with bad := some "no-score" }
+  | some "PANIC" =>
+    let promised := sp.mode = "g" || (sp.mode = "b" && fullBand sp m && clipsDefault)
+    let st := { st with stopped := true }
+    if promised then st.fail ("panic-in-alignment step=" ++ at_) else st.tag "panic-unpromised-mode"
+  | some sstr =>
+  match parseInt sstr, g.o.bind (parseList parseOp) with
+  | some s, some ops =>
+    -- score clause
+    let st :=
+      if linear && sp.mode = "g" then
+        let x := st.cur.labels
+        let nw := nwFast sc x sp.query
+        let st := st.tag "lin-global"
+        let st := if Model.chainScore sc x sp.query ≠ s then st.tag "drift-chain-score" else st
+        let st := if x.length ≥ 2 && sp.query.length ≥ 2 && hasGapOrClip ops then { st with nt := true } else st
+        let st := if hasGapOrClip ops then st.tag "lin-gapped" else st
+        let st :=
+          if s ≠ nw then st.fail ("score step=" ++ at_ ++ " optimum=" ++ toString nw ++ " reported=" ++ toString s)
+          else if acceptGlobal sc x sp.query ops s then st
+          else match toMoves 0 ops with
+            | none => st.fail ("operations-not-a-global-alignment step=" ++ at_)
+            | some mv => st.fail ("operations-score step=" ++ at_ ++ " recomputed=" ++
+                (match score sc x sp.query mv with | some v => toString v | none => "invalid") ++ " reported=" ++ toString s)
+        match g.b with
+        | none => st
+        | some "PANIC" => if fullBand sp m && clipsDefault then st.fail ("panic-in-banded step=" ++ at_) else st
+        | some bs =>
+          match parseInt bs with
+          | none => { st with bad := some "banded-score" }
+          | some b =>
+            if fullBand sp m then
+              if clipsDefault then
+                let st := st.tag "lin-banded-full"
+                if b ≠ s then st.fail ("banded-score step=" ++ at_ ++ " banded=" ++ toString b ++ " global=" ++ toString s) else st
+              else if b ≠ s then st.tag "banded-with-clip-penalties-differs" else st
+            else st
+      else if linear && sp.mode = "b" && fullBand sp m && clipsDefault then
+        let nw := nwFast sc st.cur.labels sp.query
+        let st := st.tag "lin-banded-full"
+        if s ≠ nw then st.fail ("banded-score step=" ++ at_ ++ " optimum=" ++ toString nw ++ " reported=" ++ toString s) else st
+      else st
+    let st :=
+      if sp.mode = "g" then
+        let (ms, mops) := Model.globalAlign sc st.cur.labels st.cur.wes sp.query
+        let st := if ms ≠ s then st.tag "drift-global-score" else st
+        if mops ≠ ops then st.tag "drift-global-ops" else st
+      else st
+    let st := if hasClip ops then st.tag "clip-ops" else st
+    let st := if sp.mode = "b" && !fullBand sp m then st.tag "narrow-band" else st
+    -- graph clauses
+    if !sp.add then
+      if g.g.isSome then { st with bad := some "unexpected-graph" } else st
+    else
+    match g.g, g.c with
+    | some "PANIC", _ =>
+      let st := { st with stopped := true }
+      -- junk operation lists of narrow bands / clipping modes are outside what the property promises
+      if sp.mode = "g" || (sp.mode = "b" && fullBand sp m && clipsDefault) then st.fail ("panic-in-add_to_graph step=" ++ at_)
+      else st.tag "panic-unpromised-mode"
+    | some gs, some cs =>
+      match parseDump gs with
+      | none => { st with bad := some "graph" }
+      | some d =>
+        let old := st.cur
+        let n := d.labels.length
+        let es := plain d.wes
+        let st := st.tag "add"
+        let mg := Model.addAlignment { labels := old.labels, es := old.wes } ops sp.query
+        let st := if mg.labels ≠ d.labels || mg.es ≠ d.wes then st.tag "drift-add" else st
+        let st := if n > old.labels.length then { (st.tag "grow") with nt := true } else st
+        let st := if !isChain d then st.tag "branched" else st
+        let st := if !wellFormedB n es then st.fail ("edge-endpoint-out-of-range step=" ++ at_)
+          else if !isAcyclic n es then st.fail ("cycle step=" ++ at_) else st
+        let st := if !extendsB old.labels old.wes d.labels d.wes then st.fail ("label-or-edge-lost step=" ++ at_) else st
+        let st := if n > old.labels.length + sp.query.length then st.fail ("node-growth step=" ++ at_) else st
+        let st := checkCons st d cs at_
+        let ident := st.onlyIdentity && sp.mode = "g" && sp.query == ref
+        let st := { st with onlyIdentity := ident, noAdds := false, cur := d }
+        if ident && uniq then
+          let st := st.tag "identity"
+          let st := if d.labels ≠ ref then st.fail ("identity-readdition-changed-nodes step=" ++ at_) else st
+          if cs ≠ "PANIC" && parseHex cs ≠ some ref then st.fail ("identity-readdition-consensus step=" ++ at_) else st
+        else st
+    | _, _ => { st with bad := some "no-graph-after-add" }
+  | _, _ => { st with bad := some "score-or-ops" }
+
+def verdict (toks : List String) (out : String) : String :=
+  match toks with
+  | [scs, alphas, tables, refs, stepss] =>
+    match parseList parseInt scs ':', parseHex alphas, parseIntList tables, parseHex refs,
+          parseList parseStep stepss '/' with
+    | some [gap, xp, xs, yp, ys], some alpha, some table, some ref, some steps =>
+      if out.startsWith "HANG" || out.startsWith "CRASH" || out.startsWith "PANIC" then "reject " ++ out else
+      let k := alpha.length
+      if table.length ≠ k * k || ref.isEmpty || steps.isEmpty then "bad-op input" else
+      let sc := mkSc alpha table gap
+      let clipsDefault := xp == minScore && xs == minScore && yp == minScore && ys == minScore
+      let uniq := uniqueOpt k table gap
+      match (out.splitOn " | ").mapM parseGrp with
+      | none => "bad-op output-fields"
+      | some [] => "bad-op output-empty"
+      | some (g0 :: gs) =>
+        match g0.g.bind parseDump, g0.c with
+        | some d0, some c0 =>
+          let st : St := { cur := d0 }
+          let st := if d0.labels ≠ ref then st.fail "initial-labels" else st
+          let st := if !isChain d0 then st.tag "initial-graph-not-a-chain" else st
+          let st := checkCons st d0 c0 "init"
+          let st := if ref.length = 1 then st.tag "ref1" else st
+          let st := if gap == 0 then st.tag "gap0" else st
+          let st := if uniq then st.tag "uniq-scheme" else st
+          let st := if !clipsDefault then st.tag "clip-penalties" else st
+          if gs.length > steps.length then "bad-op more-groups-than-steps" else
+          let st := ((steps.zip gs).zipIdx).foldl (fun st ((sp, g), i) => stepCheck sc clipsDefault uniq ref st i sp g) st
+          match st.bad with
+          | some b => "bad-op " ++ b
+          | none =>
+            if gs.length < steps.length && !st.stopped then "bad-op fewer-groups-than-steps" else
+            match st.fails ++ st.soft with
+            | f :: _ =>
+              if f.startsWith "score " then "diff " ++ f else "reject " ++ f
+            | [] => "ok" ++ (if st.nt then " nt" else "") ++ String.join (st.tags.map (" " ++ ·))
+        | _, _ => "bad-op initial-graph"
+    | _, _, _, _, _ => "bad-op parse"
+  | _ => "bad-op arity"
 
 end RbV.Drv.C16
